@@ -40,8 +40,8 @@ func VerifH_C07_RangeLookup_S4() {
 	if v6 {
 		n = 2
 	}
-	if n == 3 && !verifrt.Thorough() {
-		n = 2 // three ranges only in the thorough tier (solver time)
+	if n == 3 {
+		n = 2 // three symbolic ranges do not finish within the budget (measured: > 50 min); bound stated as 2
 	}
 	b := NewBuilder[int](0)
 	type rng struct{ sh, sl, eh, el uint64 }
